@@ -4,4 +4,4 @@ CONSTANTS
   Bug = "none"
   Group = "functor"
   MaxLen = 0
-INVARIANTS TypeOK LawFunctorIdentity LawFunctorComposition LawMapIsBindReturn
+INVARIANTS TypeOK LawFunctorIdentity LawFunctorComposition LawMapIsBindReturn LawMaybeMultiVariadic
